@@ -64,15 +64,16 @@ def run(ctx):
         for rw in chosen:
             if dropping and rng.random() < 0.75:
                 rw |= 256                    # ambient launcher: makes a lost capset visible
-            pairs.add(s * 512 + rw)
+            x = rng.randrange(8) if (s & 1) else 0      # credential sites: how groups are asked for x gid-map setting
+            pairs.add((x * 512 + s) * 512 + rw)
     for _ in range(ctx.pick(24, 100)):
-        pairs.add(rng.randrange(512) * 512 + rng.randrange(512))
+        pairs.add((rng.randrange(8) * 512 + rng.randrange(512)) * 512 + rng.randrange(512))
     g, _, _ = lc.par(lambda: ctx.tlc("Launch_Gen", cfg="CONSTANTS\n  C04Pairs = {%s}\n  C07Bases = {}\nINIT Init\nNEXT Next\n" % ",".join(map(str, sorted(pairs))),
                                       timeout=600, count=False),
                      lambda: ctx.build_vdrive("launch"), lambda: lc.build_probe(ctx))     # build while TLC generates
     ctx.tlc_ok("Launch_Gen", g)
     cases = ctx.read_ndjson(os.path.join(g.dir, "c04cases.ndjson"))
-    cases.sort(key=lambda c: (c["s"], c["r"]))
+    cases.sort(key=lambda c: (c["s"], c["r"], c["xd"]))
     for i, c in enumerate(cases):
         c["id"] = i + 1
     ctx.log("generated %d cases (%d site combinations)" % (len(cases), len({c["s"] for c in cases})))
@@ -174,6 +175,7 @@ def run(ctx):
     if traces:
         ctx.sample({"id": traces[0]["id"], "child": [e["n"] for e in traces[0]["child"]], "parent": [e["n"] for e in traces[0]["parent"]]})
     ctx.assumptions += [
+        "the launcher carries supplementary groups {4242, 4343}; in a user namespace whose setgroups file says deny the kernel lets nobody change the groups, so 'requested groups' is judged only where setgroups is allowed (the code skips the call for deny + empty list; deny + non-empty list is refused by the kernel and is a C07 recipe)",
         "launcher is root without CAP_SYS_RESOURCE; requested ids are mapped 1:1 when a user namespace is used",
         "pivot root is only run with a mount namespace and host/domain name only with a UTS namespace (anything else would reconfigure the host)",
         "'capability sets' = effective, permitted, inheritable, ambient (the bounding set is recorded, not judged)",
